@@ -29,6 +29,8 @@ class Env:
         self.extra_cleanup: list[Callable] = []
         self.on_target: Callable[[], None] | None = None
         self.stopped = False
+        self.unload_fn: Callable | None = None
+        self.variant = 0
 
     def node(self, **kw: Any) -> Node:
         nd = Node(self.net, len(self.nodes), **kw)
@@ -263,6 +265,51 @@ async def sc_hidden(loop: Any, env: Env) -> None:
     await asyncio.sleep(12.0)
 
 
+async def sc_service(loop: Any, env: Env) -> None:
+    """
+    Three complete IPv8 service instances (ipv8_service.IPv8) with the DEFAULT configuration - Discovery, HiddenTunnel
+    and DHTDiscovery overlays with their walkers, ticking every walker_interval - on simulated endpoints. The observed
+    overlay (rotating with env.variant) is unloaded through ``IPv8.unload_overlay``, as an application would do.
+    """
+    import base64
+    import copy
+
+    from ipv8.configuration import get_default_configuration
+    from ipv8_service import IPv8
+
+    from . import keypool
+    nodes = [env.node() for _ in range(3)]
+    instances = []
+    for i, nd in enumerate(nodes):
+        cfg = copy.deepcopy(get_default_configuration())
+        cfg["keys"] = [{"alias": "anonymous id", "bin": base64.b64encode(keypool.private_bin(i)).decode(), "file": None}]
+        cfg["logger"] = {"level": "CRITICAL"}
+        for ov in cfg["overlays"]:
+            for b in ov["bootstrappers"]:
+                b["init"] = {"ip_addresses": [list(nodes[(i + 1) % 3].address)], "dns_addresses": [],
+                             "bootstrap_timeout": 5.0}
+        inst = IPv8(cfg, endpoint_override=nd.endpoint)
+        nd.overlays = list(inst.overlays)
+        for ov in inst.overlays:
+            ov.my_estimated_wan = nd.address
+            ov.my_estimated_lan = nd.address
+        instances.append(inst)
+    which = getattr(env, "variant", 0) % len(instances[0].overlays)
+    target = instances[0].overlays[which]
+    env.unload_fn = lambda: instances[0].unload_overlay(target)
+
+    async def stop_all() -> None:
+        for inst in instances:
+            if inst.state_machine_task:
+                inst.state_machine_task.cancel()
+    env.extra_cleanup.append(lambda: [inst.state_machine_task.cancel() for inst in instances if inst.state_machine_task])
+    env.instances = instances
+    env.target(nodes[0], target)
+    for inst in instances:
+        await inst.start()
+    await asyncio.sleep(20.0)
+
+
 async def sc_pex(loop: Any, env: Env) -> None:
     from ipv8.messaging.anonymization.pex import PexCommunity
     nodes = [env.node() for _ in range(3)]
@@ -364,15 +411,24 @@ SCENARIOS: dict[str, Callable] = {
     "dht": sc_dht,
     "tunnel": sc_tunnel,
     "hidden": sc_hidden,
+    "service0": sc_service,
+    "service1": sc_service,
+    "service2": sc_service,
     "pex": sc_pex,
     "identity": sc_identity,
     "attestation": sc_attestation,
 }
 
 
+# scenarios used as traffic corpus by C01 / C03 (the three service variants produce the same kinds of datagrams)
+CORPUS_SCENARIOS = [n for n in SCENARIOS if n not in ("service1", "service2")]
+
+
 async def run_scenario(loop: Any, name: str, env: Env | None = None) -> Env:
     env = env or Env(loop)
     random.seed(1234)
+    if name.startswith("service"):
+        env.variant = int(name[7:])
     await SCENARIOS[name](loop, env)
     return env
 
